@@ -182,6 +182,25 @@ int main(int argc, char **argv)
                         }
                     }
     }
+    if (W == 32)
+    {
+        // big shapes, odd team sizes (more and fewer threads than rows, chunk remainders)
+        for (int b = 0; b < NB; b++)
+        {
+#ifndef __AVX512__
+            if (b == B_AVX512) continue;
+#endif
+            for (size_t r : {(size_t)32, (size_t)64, (size_t)256, (size_t)1024})
+                for (size_t cc : {(size_t)1, (size_t)8, (size_t)33, (size_t)130})
+                    for (int t : {6, 7, 11, 13})
+                    {
+                        if (r >= 256 && (cc == 130 || t == 6 || t == 13) && !args.thorough()) continue;
+                        size_t d = (cc == 33) ? 2 : 1;
+                        cases.push_back({b, r, cc, d, t, 0, (int)((r + cc + (size_t)t) % 3)});
+                        cases.push_back({b, r, cc, d, t, (cc > 4 ? cc / 3 + 1 : 1), (int)((r + cc) % 3)});
+                    }
+        }
+    }
     isolated_for((long)cases.size(), args.jobs, 32, [&](long i) { run_case(R, cases[i]); },
                  [&](long i, const ChildResult &r) {
                      const Case &c = cases[i];
